@@ -48,6 +48,26 @@ func execHist(spec *RunSpec, st *Stats) *Violation {
 		}
 		prevDoc = op.Doc
 		if res.Panic != "" {
+			// a panic is attributed to the history only if the same call does not panic alone on
+			// a fresh instance (an input the library cannot handle at all is C01's subject)
+			pcfg := spec.Cfg
+			if op.Kind == "PkgConvert" {
+				pcfg = Config{}
+			}
+			if (op.Kind == "AuxConvert" || op.Kind == "RenderOther") && op.Aux != nil {
+				pcfg = *op.Aux
+			}
+			psrc := env.pristine(op.Doc)
+			if res.Tree != nil {
+				psrc = env.pristine(res.Tree.doc)
+			}
+			if op.Kind != "Walk" && op.Kind != "GC" && refModel.Get(pcfg, psrc).out == nil {
+				if st != nil {
+					st.Inc("diag.panic_also_alone")
+				}
+				prevFailed = false
+				continue
+			}
 			return &Violation{Class: "panic", Client: 0, Op: i, Detail: "panic: " + firstLine(res.Panic)}
 		}
 		switch op.Kind {
